@@ -16,7 +16,11 @@ META = {
     "note": "Bounded: fault points are enumerated per library, not for all libraries; multiple simultaneous faults are sampled. The alarm is "
             "modelled by an exception raised by a trace function at a 'line' event of the frame executing the with-body (not at `try:` "
             "keywords and comprehension back edges, where CPython's tracing, unlike a signal handler, bypasses the handlers). Single rank.",
-    "technique": "fault injection (sys.settrace) into the real code on a scratch copy, one forked generation run per fault point, C03 library predicate as oracle",
+    "structural": "In addition, exception-edge obligations are discharged on the AST of simplifier.py for every time-limited region (pyvc/excedge.py): E1 a "
+                  "TimeoutException raised in the body reaches the region's handler (no inner handler swallows it), E2 the handler reads only names assigned before the try, "
+                  "E3 parallel lists extended in the body are re-aligned by the handler. They are reported as obligations with back end pyvc.excedge; a failing one without a "
+                  "failing injection is reported with no-failing-input-found.",
+    "technique": "exception-edge obligations on the AST (structural) + fault injection (sys.settrace) into the real code on a scratch copy, one forked generation run per fault point, C03 library predicate as oracle",
 }
 CHECKER = "./bin/check C15 (harness/rt_c15.py: forked generation runs with injected TimeoutException, oracle harness/rt_gen.py::library_predicate)"
 
@@ -90,6 +94,13 @@ def check(run):
                "at the preceding poll point (true except at `try:` keywords and comprehension back edges, which are not used)",
                "A-stmt: statements of the region bodies have at most one side effect, performed by their last bytecode or by a call that completes")
     run.trust("sys.settrace", "rt_gen.library_predicate (C03 oracle, mpmath)", "MPI stand-in /verif/stubs/mpi4py (single rank)")
+    from vlib import deductive as D
+    from pyvc import excedge
+    sfailed = D.structural_generic(run, ["generation/simplifier.py"], excedge.obligations, "pyvc.excedge (AST analysis)",
+                                   "exception-edge obligations of the time-limited regions (E1 timeout reaches the region's handler, E2 handler reads definitely assigned names, E3 parallel lists re-aligned)",
+                                   needs_module_names=True)
+    D.report_structural(run, sfailed, "excedge", "pyvc/excedge.py")
+    run.trust("pyvc.excedge (structural analysis of try/with/except)")
     return run.finish(META["level"], META["text"], CHECKER,
                       rule="cases = generation runs with at least one injected timeout; distinct = runs in which the injected timeout actually fired "
                            "(distinct (line, visit) tuples by construction)")
